@@ -30,6 +30,10 @@ def check(model, tier):
     commute.r03_1_apply_protocol(ctx)
     commute.r03_2_backtrack_contract(ctx)
     commute.r03_5_partial_join_engine(ctx)
+    from ..rules import dispatch as _dispatch3
+
+    _dispatch3.r_to_mapping_shortcut(ctx, "R03.6")  # a deduplication pushed down to a keyed leaf must still deduplicate
+    _dispatch3.r_only_deduplication_merges_rows(ctx, "R03.7")
     structure.r14_9_engine_plumbing(ctx, rule="R03.3")
     commute.r04_1_matrix(ctx)
     commute.r04_2_failure_hands_back(ctx)
